@@ -280,7 +280,8 @@ def main(tier: str, seed: int) -> int:
         "float values are small integers (no rounding, no inf-inf), int64 partial sums never equal the int64 minimum",
         "numba prange in reduce_array_pair writes out[i] only (no data race) — not modelled",
     ]
-    run.lean = common.prepare_lean(MODULES)
+    run.lean = common.prepare_lean(MODULES, recheck=(tier == "thorough"))
+    run.extra["leanchecker"] = run.lean.leanchecker
     if not run.lean.driver_ok:
         common.log("driver failed to build:\n" + run.lean.build_log[-3000:])
         run.lean.obligations.append({"name": "driver-build", "file": "lean/Driver.lean", "status": "failed", "axioms": None})
